@@ -268,6 +268,13 @@ def run(facts, res):
                             continue
                         if gs != [fld]:
                             res.violation("P3", "Revision::from|group-field:%s" % fld, "Revision::from fills field %s from regex group(s) %s" % (fld, gs), fb.loc(st.line))
+                        # the captured text is taken over unmodified (views, copies and the integer parse only)
+                        between = {callee_name(c) for c in walk(t) if c[0] == "call"} - {"name", "captures", "unwrap", "expect", "as_str", "to_string", "to_owned",
+                                                                                       "parse", "into", "from", "deref", "branch", "clone", "as_ref"}
+                        if between:
+                            res.violation("P3", "Revision::from|group-text-transformed:%s" % fld,
+                                          "Revision::from transforms the captured text of group `%s` (%s) before storing it: printing a revision and parsing it back "
+                                          "no longer yields the same revision for every identifier the system can print" % (fld, sorted(between)), fb.loc(st.line))
         res.instance("P3", "Revision::from: %d aggregates, every field filled from the regex group of the same name" % n, fb.loc())
         res.floor("P3", "Revision aggregates in the parser", n, 2)
 
